@@ -16,6 +16,11 @@ import (
 
 // collectHashes runs one configuration and returns case index -> event-log hash.
 func collectHashes(bin string, prop, tier string, seed uint64, cases, workers int, env []string) (map[int]string, error) {
+	return collectHashesOnly(bin, prop, tier, seed, cases, workers, env, -1)
+}
+
+// collectHashesOnly is collectHashes restricted to one case of the sample (only >= 0).
+func collectHashesOnly(bin string, prop, tier string, seed uint64, cases, workers int, env []string, only int) (map[int]string, error) {
 	out := map[int]string{}
 	var mu sync.Mutex
 	var wg sync.WaitGroup
@@ -24,7 +29,7 @@ func collectHashes(bin string, prop, tier string, seed uint64, cases, workers in
 		wg.Add(1)
 		go func(w int) {
 			defer wg.Done()
-			job := Job{Mode: "run", Prop: prop, Tier: tier, Seed: seed, Worker: w, Workers: workers, From: 0, To: cases, Only: -1, DumpLog: true, MaxViol: -1, Spread: true}
+			job := Job{Mode: "run", Prop: prop, Tier: tier, Seed: seed, Worker: w, Workers: workers, From: 0, To: cases, Only: only, DumpLog: true, MaxViol: -1, Spread: true}
 			js, _ := json.Marshal(job)
 			cmd := exec.Command(bin, "-test.run", "^TestVerifWorker$", "-test.timeout", "0")
 			cmd.Env = append(os.Environ(), "VERIF_JOB="+string(js))
